@@ -39,9 +39,12 @@ SetupSteps == [i \in 1..Len(TokNames) |->
 
 Init == /\ w = NewWorld
         /\ obs = FoldObs(ObsReset(Cfg), SetupEvents, 1)
-        /\ ctl = [steps |-> 0, tag |-> 1, healed |-> FALSE, rounds |-> 0, rel |-> <<>>]
+        /\ ctl = [steps |-> 0, tag |-> 1, healed |-> FALSE, rounds |-> 0, rel |-> <<>>, tried |-> {}]
         /\ hist = IF Export THEN SetupSteps ELSE <<>>
 
+\* When no action refers to individual emitted datagrams (no "deliver"), behaviours that differ only in the order of
+\* independent exchanges reach states that differ only in emission numbers: the VIEW identifies them (see View below)
+Coarse == "deliver" \notin Calls
 Can == ctl.steps < MaxSteps /\ ~ctl.healed
 \* ctl.rel: the slots released so far, in order.  It is part of the state (and of every VIEW) so that behaviours that free the
 \* same slots in a different ORDER are explored and exported as different behaviours: a slip that confuses slot indices
@@ -70,7 +73,13 @@ ACDeliver(c, k) ==
     /\ Apply(DoCDeliver(w, c, k), [a |-> "cdeliver", c |-> c, d |-> EName(k)])
 ACraft(tk, k, from) ==
     /\ Can /\ "craft" \in Calls /\ k \in 1..Len(w.net) /\ w.net[k].kind \in {"Challenge", "Response"}
-    /\ Apply(DoSCraftResponse(w, tk, k, from, 7), [a |-> "scraft", kind |-> "Response", tok |-> tk, seq |-> 7, chal_from |-> EName(k), from |-> from])
+    \* which forgeries were tried is part of the state (ctl.tried): a forgery the server ignores changes nothing else, and without it
+    \* all ignored forgeries would collapse into one state with ONE exported representative
+    /\ LET r == DoSCraftResponse(w, tk, k, from, 7) IN
+       /\ w' = r.w
+       /\ obs' = ObsStep(obs, r.ev)
+       /\ hist' = IF Export THEN Append(hist, [a |-> "scraft", kind |-> "Response", tok |-> tk, seq |-> 7, chal_from |-> EName(k), from |-> from]) ELSE hist
+       /\ ctl' = [Stepped(r.w) EXCEPT !.tried = IF Coarse THEN @ \cup {<<tk, w.net[k].cid, w.net[k].cud, from>>} ELSE @]
 \* one honest exchange (harness macro `exchange`): client update, its datagram to the server, the reply back to the client
 AExchange(c, dt) ==
     /\ Can /\ "exchange" \in Calls
@@ -146,11 +155,10 @@ ExportCfg == PrintT(<<"CFG", ToJson(Cfg)>>)
 ASSUME ExportCfg
 \* When no action refers to individual emitted datagrams (no "deliver"), behaviours that differ only in the order of
 \* independent exchanges reach states that differ only in emission numbers: identify them
-Coarse == "deliver" \notin Calls
 View == IF Coarse
         THEN <<[i \in 1..Len(w.slots) |-> [w.slots[i] EXCEPT !.lastRecv = 0, !.lastSend = 0]],
                [a \in DOMAIN w.pending |-> w.pending[a].tok], [i \in 1..Len(w.entries) |-> <<w.entries[i].tok, w.entries[i].addr>>], w.consumed, w.maxc,
-               [c \in DOMAIN w.cl |-> <<w.cl[c].state, w.cl[c].reason, w.cl[c].seq>>], obs.sess, obs.flags, ctl.steps, ctl.rel>>
+               [c \in DOMAIN w.cl |-> <<w.cl[c].state, w.cl[c].reason, w.cl[c].seq>>], obs.sess, obs.flags, ctl.steps, ctl.rel, ctl.tried>>
         ELSE <<w, obs, ctl>>
 
 \* ---- named configurations ----
@@ -177,5 +185,9 @@ Clis_bad == [v |-> [tok |-> "TV", addr |-> 1], f |-> [tok |-> "TF", addr |-> 2],
              x |-> [tok |-> "TE", addr |-> 3]]
 \* the holder of T1 at two addresses and a second identity (D21: with a one-entry token table the binding of T1 is evicted)
 Clis_moved == [c1 |-> [tok |-> "T1", addr |-> 1], c1b |-> [tok |-> "T1", addr |-> 3], c2 |-> [tok |-> "T2", addr |-> 2]]
+\* applications that do not use the user data issue every token with the same one: one address holding tokens for two ids,
+\* a second holder of a token for the second id (seeded change C10/c: "id or user data matches" instead of "and")
+Toks_sameud == [T1 |-> Tok(10, 7, <<1>>, 30, "K", "P"), T2a |-> Tok(20, 7, <<1>>, 30, "K", "P"), T2b |-> Tok(20, 7, <<1>>, 30, "K", "P")]
+Clis_sameud == [a1 |-> [tok |-> "T1", addr |-> 1], a2 |-> [tok |-> "T2a", addr |-> 1], b |-> [tok |-> "T2b", addr |-> 2]]
 P_HS == <<"C05", "C10", "C17", "C19", "C04", "C13">>
 =============================================================================
